@@ -196,6 +196,62 @@ def carrier_trace_records(embs, seed, start_id):
     return recs, ctx, skipped
 
 
+def falsy_attribute_records(embs, start_id, ops=("pickle", "subst")):
+    """Non-SymPy string attributes with the value "" (a legitimate name that is falsy in Python): has to survive pickle, subs and
+    xreplace like any other value (a truthiness test where `is not None` is meant loses it)."""
+    import pickle
+
+    x, w = sp.symbols("x w")
+    recs, ctx, skipped = [], {}, []
+    rid = start_id
+    for emb in embs:
+        cls = emb.cls
+        for fname in emb.attr_fields:
+            cands = emb.attr_values.get(fname, [])
+            if not any(isinstance(v, str) or v is None for v in cands):
+                continue
+            try:
+                with warnings.catch_warnings():
+                    warnings.simplefilter("ignore")
+                    probe = emb.build([x, sp.Symbol("y")][: emb.ar], tuple("a" for _ in range(emb.na)), tuple(range(emb.ar)))
+                    if dataclasses.is_dataclass(cls):
+                        attrs = {g.name: getattr(probe, g.name) for g in dataclasses.fields(cls) if not g.metadata.get("sympify", True)}
+                        attrs[fname] = ""
+                        obj = cls(**{g.name: getattr(probe, g.name) for g in dataclasses.fields(cls) if g.metadata.get("sympify", True)}, **attrs)
+                    else:
+                        obj = cls(*probe.args, name="")
+                    if getattr(obj, fname, None) != "":
+                        continue
+            except Exception as ex:  # noqa: BLE001
+                skipped.append(f"{cls.__name__}.{fname} = '': {type(ex).__name__}: {str(ex)[:80]}")
+                continue
+            tj = T.to_json(project_generic(obj))
+            todo = []
+            if "pickle" in ops:
+                todo.append(("pickle", "pickle", lambda o: pickle.loads(pickle.dumps(o)), None))
+            if "subst" in ops:
+                todo.append(("subst", "xreplace", lambda o: o.xreplace({x: w}), [(x, w)]))
+                todo.append(("subst", "subs", lambda o: o.subs(x, w), [(x, w)]))
+            for op, opname, fn, m in todo:
+                info = {"cls": cls.__name__, "obj": f"{obj} with {fname}=''", "what": opname, "opname": opname, "carrier": fname, "falsy_attribute": 1}
+                try:
+                    with warnings.catch_warnings():
+                        warnings.simplefilter("ignore")
+                        res = fn(obj)
+                except Exception as ex:  # noqa: BLE001
+                    recs.append({"id": rid, "op": "error", "t": tj})
+                    ctx[rid] = {**info, "exc": type(ex).__name__, "what": f"{opname} raised {ex!r}"}
+                    rid += 1
+                    continue
+                rec = {"id": rid, "op": op, "t": tj, "r": T.to_json(project_generic(res))}
+                if m:
+                    rec["m"] = [[T.to_json(project_generic(k)), T.to_json(project_generic(r_))] for k, r_ in m]
+                recs.append(rec)
+                ctx[rid] = {**info, "res": f"{res} with {fname}={getattr(res, fname, '<missing>')!r}"}
+                rid += 1
+    return recs, ctx, skipped
+
+
 def default_argument_records(embs, start_id, ops=("pickle", "subst")):
     """Instances built with their optional constructor arguments OMITTED (the class universe passes every argument explicitly):
     the default of an argument may be stored in another form than an explicit value (None, a token) and has to survive
